@@ -234,6 +234,14 @@ def stepCore (c : CoreSt) (fs : List String) : CoreSt × String :=
     | none => (c, "bad-op")
   | ["dump"] =>
     (c, "A=" ++ showBar c.bar ++ " P=" ++ showPhys c.phys)
+  | ["refusedunseal"] =>
+    -- an unseal with the right shares that is refused after the barrier was opened: the node ends sealed — barrier
+    -- sealed, no key material, nothing served (`C10.refused_unseal_ends_sealed`)
+    let c1 := (c.exec .sealC).1
+    let c2 := ((c1.exec (.unsealC true)).1.exec .sealC).1
+    (c, "err:other|core:sealed|barrier:" ++ (if c2.bar.sealed then "sealed" else "open") ++ "|keyring:" ++
+        (if c2.bar.keyring.isNone then "none" else "held") ++ "|get:" ++
+        (match (c2.exec (.get "d/a")).2 with | .bar .sealed => "refused" | .sealedErr => "refused" | _ => "served"))
   | _ => (c, "bad-op")
 
 def streams : List (String × Driver.Stream) :=
